@@ -180,7 +180,7 @@ def jobs_C02(tier, seed, want='C02', dsts=('path', 'seekable', 'nonseekable', 's
             for attempts in (2, 3):
                 s = inline(scn([T_dl(dst, key)], cfg(multipart_chunksize=c_, io_chunksize=io,
                                                      num_download_attempts=attempts), seed=seed,
-                               faults={'sites': ['stream:retryable', 'stream:short'], 'short_sizes': [1]}))
+                               faults={'sites': ['stream:retryable', 'stream:short', 's3call:GetObject:retryable'], 'short_sizes': [1]}))
                 jobs.append(job(f'stream-faults {dst} {key} c={c_} io={io} attempts={attempts}', s,
                                 2 if tier == 'quick' else 3, want, max_execs=300000))
     # schedules: ranged parts complete in every order
@@ -197,7 +197,7 @@ def jobs_C02(tier, seed, want='C02', dsts=('path', 'seekable', 'nonseekable', 's
     return jobs
 
 
-FAULT_SITES_ALL = ['s3:', 'stream:retryable', 'stream:fatal', 'fs:open', 'fs:write', 'fs:close',
+FAULT_SITES_ALL = ['s3:', 's3call:GetObject:retryable', 'stream:retryable', 'stream:fatal', 'fs:open', 'fs:write', 'fs:close',
                    'fs:rename', 'fs:seek', 'fs:read', 'cb:queued', 'cb:progress', 'src:read', 'sink:write']
 
 
@@ -281,6 +281,10 @@ def jobs_C04(tier, seed):
         s = scn(copy.deepcopy(bt[name]), cfg(**ones), seed=seed,
                 faults={'sites': ['s3:', 'stream:retryable', 'stream:fatal', 'fs:write', 'fs:rename', 'src:read', 'sink:write']})
         jobs.append(job(f'fault {name} ones', s, BD(tier)['FAULT'], want, max_execs=300000))
+    for name in bt:
+        tr = copy.deepcopy(bt[name])
+        s = inline(scn(tr, cfg(**ones), seed=seed, faults={'sites': FAULT_SITES_ALL}))
+        jobs.append(job(f'seq fault {name}', s, 1 if tier == 'quick' else 2, want))
     # (iv) cancel / shutdown(cancel) at every point
     for name in core:
         for inj in ([{'kind': 'cancel', 'target': 0}], [{'kind': 'shutdown_cancel', 'msg': 'bye'}]):
@@ -363,6 +367,8 @@ def jobs_C07(tier, seed):
             jobs.append(job(f'{inj[0]["kind"]} {name}', s, k, want, max_execs=500000))
         s = scn(copy.deepcopy(bt[name]), seed=seed, inject=[{'kind': 'ctrlc'}], script='shutdown', **base)
         jobs.append(job(f'ctrlc-at-shutdown {name}', s, k, want, max_execs=500000))
+        s = scn(copy.deepcopy(bt[name]), seed=seed, inject=[{'kind': 'ctrlc'}], script='with_clean', **base)
+        jobs.append(job(f'ctrlc-at-with-exit {name}', s, k, want, max_execs=500000))
         for script in ('with_raise_kbd', 'with_raise_value', 'with_raise_empty'):
             s = scn(copy.deepcopy(bt[name]), seed=seed, script=script, **base)
             jobs.append(job(f'{script} {name}', s, BD(tier)['PLAIN'] if name in deep else {'sched': 0}, want,
@@ -419,7 +425,7 @@ def jobs_C09(tier, seed):
     for dst in ('path', 'seekable', 'nonseekable'):
         for key in ('o5', 'o3', 'o7'):
             s = inline(scn([T_dl(dst, key)], cfg(num_download_attempts=3, multipart_chunksize=3), seed=seed,
-                           faults={'sites': ['stream:retryable', 'stream:short']}))
+                           faults={'sites': ['stream:retryable', 'stream:short', 's3call:GetObject:retryable']}))
             jobs.append(job(f'download retries {dst} {key}', s, 2 if tier == 'quick' else 3, want, max_execs=200000))
     sizes = range(0, 9)
     scns = []
